@@ -4,6 +4,7 @@ package c18
 import (
 	"encoding/json"
 	"fmt"
+	"net"
 	"net/url"
 	"runtime/debug"
 	"strings"
@@ -97,6 +98,54 @@ var (
 	starFill = []string{"x", "abc", "", "a.b", "x?y=1", "a%2Fb", "evil.example.net#"}
 )
 
+// loopback registrations: what a native (or locally developed) application registers. The authorization endpoint
+// tolerates any port on these for native clients; the end-session endpoint has no such relaxation in the statement.
+var (
+	loopSchemes = []string{"http", "http", "http", "https"}
+	loopHosts   = []string{"127.0.0.1", "localhost", "[::1]", "127.0.0.1", "localhost"}
+	loopPorts   = []string{"", ":8080", ":49152", ""}
+	loopPaths   = []string{"/out", "/logout/done", "/", "/cb"}
+	loopQueries = []string{"", "", "?x=1"}
+)
+
+func genLoopback(t *rapid.T, label string) string {
+	return rapid.SampledFrom(loopSchemes).Draw(t, label+"ls") + "://" + rapid.SampledFrom(loopHosts).Draw(t, label+"lh") + rapid.SampledFrom(loopPorts).Draw(t, label+"lp") +
+		rapid.SampledFrom(loopPaths).Draw(t, label+"lpa") + rapid.SampledFrom(loopQueries).Draw(t, label+"lq")
+}
+
+// splitPort splits an authority into host name and ":port" ("" when absent); IPv6 literals keep their brackets.
+func splitPort(authority string) (host, port string) {
+	i := strings.LastIndex(authority, ":")
+	if i < 0 || strings.HasSuffix(authority, "]") || strings.Contains(authority[i:], "]") {
+		return authority, ""
+	}
+	return authority[:i], authority[i:]
+}
+
+// isLoopbackURI: an http(s) URI whose host is "localhost" or a loopback IP literal (standard library only).
+func isLoopbackURI(u string) (*url.URL, bool) {
+	p, err := url.Parse(u)
+	if err != nil || (p.Scheme != "http" && p.Scheme != "https") {
+		return nil, false
+	}
+	h := p.Hostname()
+	if h == "localhost" {
+		return p, true
+	}
+	ip := net.ParseIP(h)
+	return p, ip != nil && ip.IsLoopback()
+}
+
+func loopbackOf(l []string) []string {
+	var out []string
+	for _, u := range l {
+		if _, ok := isLoopbackURI(u); ok {
+			out = append(out, u)
+		}
+	}
+	return out
+}
+
 func genRegistered(t *rapid.T, label string) string {
 	switch rapid.SampledFrom([]string{"https", "https", "https", "https", "http", "custom", "globlike"}).Draw(t, label+"kind") {
 	case "https":
@@ -136,6 +185,21 @@ func genClient(t *rapid.T, id string) vkit.ClientSpec {
 		// globs for the *authorization* redirect: they say nothing about logout
 		cl.RedirectGlobs = []string{rapid.SampledFrom(globPats).Draw(t, id+"-rg")}
 	}
+	// application type and development mode: both relax what the *authorization* endpoint accepts as redirect_uri
+	// (native: any port on a registered loopback URI, custom schemes; dev mode: http); neither says anything about logout
+	cl.AppType = rapid.SampledFrom([]string{"web", "web", "native", "native", "user_agent"}).Draw(t, id+"-app")
+	cl.DevMode = rapid.IntRange(0, 4).Draw(t, id+"-dev") == 0
+	nl := rapid.SampledFrom([]int{0, 0, 1}).Draw(t, id+"-nloop")
+	if cl.AppType == "native" {
+		nl = rapid.SampledFrom([]int{1, 1, 2, 0}).Draw(t, id+"-nloopn")
+		cl.RedirectURIs = append(cl.RedirectURIs, "http://127.0.0.1/cb", "com.example.app:/cb")
+	}
+	for i := 0; i < nl; i++ {
+		u := genLoopback(t, fmt.Sprintf("%s-loop%d", id, i))
+		if !contains(cl.PostLogoutURIs, u) {
+			cl.PostLogoutURIs = append(cl.PostLogoutURIs, u)
+		}
+	}
 	return cl
 }
 
@@ -171,6 +235,43 @@ var uriRelations = []string{
 	"extrapath", "addquery", "addfragment", "trailingslash", "upperhost", "upperscheme", "schemeswap", "userinfo", "suffixhost", "prefixhost",
 	"portchange", "dotdot", "truncated", "dropquery", "pctencoded", "star-for-segment",
 	"omitted", "omitted", "empty", "evil",
+	// variants of a registered loopback URI: port, host spelling, scheme (what RFC 8252 7.3 tolerates at authorization - not at logout)
+	"loopback-port", "loopback-port", "loopback-host", "loopback-scheme", "loopback-mixed", "loopback-auth-port",
+}
+
+// loopbackVariant rewrites a loopback URI: another (or no) port, another spelling of the loopback host, the other scheme.
+func loopbackVariant(t *rapid.T, base, rel string) (string, bool) {
+	scheme, authority, rest, ok := splitHost(base)
+	if _, lb := isLoopbackURI(base); !ok || !lb {
+		return "", false
+	}
+	host, port := splitPort(authority)
+	other := func(l []string, cur, label string) string {
+		var alts []string
+		for _, x := range l {
+			if x != cur {
+				alts = append(alts, x)
+			}
+		}
+		return rapid.SampledFrom(alts).Draw(t, label)
+	}
+	newPort := func() string { return other([]string{"", ":1", ":8080", ":8081", ":49152", ":65535"}, port, "lvport") }
+	newHost := func() string { return other([]string{"127.0.0.1", "localhost", "[::1]", "127.0.0.2"}, host, "lvhost") }
+	newScheme := map[string]string{"http": "https", "https": "http"}[scheme]
+	switch rel {
+	case "loopback-port", "loopback-auth-port":
+		port = newPort()
+	case "loopback-host":
+		host = newHost()
+	case "loopback-scheme":
+		scheme = newScheme
+	default:
+		port, host = newPort(), newHost()
+		if rapid.Bool().Draw(t, "lvscheme") {
+			scheme = newScheme
+		}
+	}
+	return scheme + "://" + host + port + rest, true
 }
 
 func genURI(t *rapid.T, tgt, other *vkit.ClientSpec, def string) (uri, rel string, omit bool) {
@@ -296,6 +397,19 @@ func genURI(t *rapid.T, tgt, other *vkit.ClientSpec, def string) (uri, rel strin
 	case "other-client-globhit":
 		if len(other.PostLogoutGlobs) > 0 {
 			return fillGlob(t, rapid.SampledFrom(other.PostLogoutGlobs).Draw(t, "oglob"), "ohit"), rel, false
+		}
+	case "loopback-port", "loopback-host", "loopback-scheme", "loopback-mixed":
+		if lb := loopbackOf(tgt.PostLogoutURIs); len(lb) > 0 {
+			if v, ok := loopbackVariant(t, rapid.SampledFrom(lb).Draw(t, "lbase"), rel); ok {
+				return v, rel, false
+			}
+		}
+	case "loopback-auth-port":
+		// a port variant of a loopback URI registered for the authorization redirect only
+		if lb := loopbackOf(tgt.RedirectURIs); len(lb) > 0 {
+			if v, ok := loopbackVariant(t, rapid.SampledFrom(lb).Draw(t, "labase"), rel); ok {
+				return v, rel, false
+			}
 		}
 	}
 	if len(tgt.PostLogoutURIs) > 0 && rapid.Bool().Draw(t, "fallback") {
@@ -587,6 +701,15 @@ func registered(cl *vkit.ClientSpec, uri string) (bool, string) {
 	}
 	if contains(cl.RedirectURIs, uri) {
 		return false, "auth-redirect-only"
+	}
+	// a loopback URI that differs from a registered loopback post-logout URI in port / host spelling / scheme only:
+	// the statement knows "registered exactly or via an opted-in glob", nothing else
+	if pu, ok := isLoopbackURI(uri); ok {
+		for _, r := range cl.PostLogoutURIs {
+			if pr, ok := isLoopbackURI(r); ok && pr.Path == pu.Path && pr.RawQuery == pu.RawQuery {
+				return false, "loopback-variant"
+			}
+		}
 	}
 	return false, "unregistered"
 }
@@ -1170,6 +1293,24 @@ func run(c Case) (res *vkit.Result) {
 		outLabel += fmt.Sprintf("-%dxx", r.Status/100)
 	}
 	why0 := strings.SplitN(ex.why, "+", 2)[0]
+	// application type of the client the request is about (proven, else named by the hint / client_id)
+	app := "none"
+	for _, id := range []string{provenID, hf.azp, c.ClientID} {
+		if cl := byID[id]; cl != nil {
+			app = cl.AppType
+			if cl.DevMode {
+				res.Label("client-in-dev-mode")
+			}
+			if len(loopbackOf(cl.PostLogoutURIs)) > 0 {
+				res.Label("app:" + app + "+loopback-registered")
+			}
+			break
+		}
+	}
+	res.Label("app:" + app)
+	if strings.HasPrefix(c.Relation, "loopback-") {
+		res.Label("rel:" + c.Relation + "/app:" + app + "/" + why0)
+	}
 	res.Label("hint:"+hintLabel, "hintclass:"+c.Hint.Class, "cid:"+cidRel, "rel:"+c.Relation, "expect:"+expectLabel, "why:"+why0, "outcome:"+outLabel,
 		"router:"+c.Prov.Router, fmt.Sprintf("extras:%v", c.Prov.Extras), "method:"+c.Prov.Method, "issuer:"+c.Prov.IssuerMode, "sign:"+c.Prov.Sign.Alg,
 		"state:"+classOfState(c.State), expectLabel+"/"+outLabel)
@@ -1177,7 +1318,7 @@ func run(c Case) (res *vkit.Result) {
 		res.Label("two-published-keys")
 	}
 	res.NonTrivial = hf.present || (c.ClientID != "" && c.URI != "")
-	res.Key = fmt.Sprintf("%s|x=%v|%s|%s|%s|%s|cid=%s|%s|%s|%s|st=%s|%s", c.Prov.Router, c.Prov.Extras, c.Prov.Method, c.Prov.IssuerMode, c.Prov.Sign.Alg, hintLabel, cidRel, c.Relation, why0, expectLabel, classOfState(c.State), outLabel)
+	res.Key = fmt.Sprintf("%s|x=%v|%s|%s|%s|%s|cid=%s|%s|%s|%s|st=%s|%s", c.Prov.Router+"/"+app, c.Prov.Extras, c.Prov.Method, c.Prov.IssuerMode, c.Prov.Sign.Alg, hintLabel, cidRel, c.Relation, why0, expectLabel, classOfState(c.State), outLabel)
 	res.Info = map[string]any{"hint": hintLabel, "expect": expectLabel, "why": ex.why, "status": r.Status, "location": r.Location(), "terminate": term, "proven_client": provenID}
 	return res
 }
@@ -1206,9 +1347,9 @@ func directAPI(res *vkit.Result, c Case, cls []*vkit.ClientSpec) {
 
 var prop = vkit.Prop[Case]{
 	ID: "C18",
-	Rule: "cases = provider (router x issuer static/per-host x request host x TerminateSessionFromRequest capability x default logout URI x signing key/alg x optional second published key x GET/POST) x two generated client registrations (0-3 post-logout URIs from a grammar incl. queries/fragments/custom schemes/'*'-containing exact entries, 0-2 post-logout globs with or without opt-in, authorization-only globs) x id_token_hint (absent, empty, issued by the provider through an implicit or code flow (also at another host), forged with the provider's key: unexpired / expired / signed by a rotated published key / azp-less / unknown azp; signed by an unpublished key; 7 tamperings; 7 wrong issuers; kid / alg / claim oddities (grey); garbage) x client_id (absent, azp, other client, unknown) x post_logout_redirect_uri (registered, other client's, 20 near-miss relations, glob hit/miss/literal, default, omitted) x arbitrary state; " +
+	Rule: "cases = provider (router x issuer static/per-host x request host x TerminateSessionFromRequest capability x default logout URI x signing key/alg x optional second published key x GET/POST) x two generated client registrations (application type web / native / user_agent, dev mode, 0-3 post-logout URIs from a grammar incl. queries/fragments/custom schemes/'*'-containing exact entries, 0-2 post-logout globs with or without opt-in, authorization-only globs, 0-2 loopback post-logout URIs (http/https x 127.0.0.1/localhost/[::1] x port), native clients also loopback and custom-scheme authorization redirects) x id_token_hint (absent, empty, issued by the provider through an implicit or code flow (also at another host), forged with the provider's key: unexpired / expired / signed by a rotated published key / azp-less / unknown azp; signed by an unpublished key; 7 tamperings; 7 wrong issuers; kid / alg / claim oddities (grey); garbage) x client_id (absent, azp, other client, unknown) x post_logout_redirect_uri (registered, other client's, 20 near-miss relations, loopback variants of a registered loopback URI (other/no port, other loopback host spelling, other scheme, all three; port variant of an authorization-only loopback redirect) which are must-not-redirect for every application type, glob hit/miss/literal, default, omitted) x arbitrary state; " +
 		"oracle = independent model of (hint validity, proven client, registration) -> must-accept(requested|default) / must-reject / default-or-reject, Location compared as a user agent reads it (same URI, existing query kept, exactly one state=<state>), journal of TerminateSession*; sane registrations only (absolute URIs, glob patterns with '*' only); " +
-		"non-trivial = a hint is presented, or client_id together with a post_logout_redirect_uri; distinct = (router, capability, method, issuer mode, alg, hint class, client_id relation, URI relation, model reason, expectation, state class, outcome)",
+		"non-trivial = a hint is presented, or client_id together with a post_logout_redirect_uri; distinct = (router, application type, capability, method, issuer mode, alg, hint class, client_id relation, URI relation, model reason, expectation, state class, outcome)",
 	Gen: genCase,
 	Run: run,
 }
@@ -1253,6 +1394,30 @@ func TestModelSelf(t *testing.T) {
 		{"https://rp.example.com/out?state=x#done", "https://rp.example.com/out#done", "x", true, true},
 		{"https://rp.example.com/out", "https://rp.example.com/out", "x", false, true},
 		{"/logged-out?state=x", "/logged-out", "x", true, true},
+	}
+	for _, r := range []struct{ in, host, port string }{
+		{"127.0.0.1", "127.0.0.1", ""}, {"localhost:8080", "localhost", ":8080"}, {"[::1]", "[::1]", ""}, {"[::1]:49152", "[::1]", ":49152"},
+	} {
+		if h, p := splitPort(r.in); h != r.host || p != r.port {
+			t.Errorf("splitPort(%q)=%q,%q", r.in, h, p)
+		}
+	}
+	for u, want := range map[string]bool{
+		"http://127.0.0.1/out": true, "https://localhost:1/out": true, "http://[::1]:8080/": true, "http://127.0.0.2/x": true,
+		"http://rp.example.com/out": false, "com.example.app:/out": false, "http://localhost.evil.example.net/out": false, "ftp://127.0.0.1/out": false,
+	} {
+		if _, got := isLoopbackURI(u); got != want {
+			t.Errorf("isLoopbackURI(%q)=%v", u, got)
+		}
+	}
+	nat := &vkit.ClientSpec{ID: "n", AppType: "native", PostLogoutURIs: []string{"http://127.0.0.1:8080/out?x=1"}}
+	for u, want := range map[string]string{
+		"http://127.0.0.1:8080/out?x=1": "exact", "http://127.0.0.1:1/out?x=1": "loopback-variant", "https://localhost/out?x=1": "loopback-variant",
+		"http://[::1]:8080/out?x=1": "loopback-variant", "http://127.0.0.1:8080/out": "unregistered", "http://rp.example.com:8080/out?x=1": "unregistered",
+	} {
+		if ok, why := registered(nat, u); why != want || ok != (want == "exact") {
+			t.Errorf("registered(native, %q)=%v,%q", u, ok, why)
+		}
 	}
 	for _, r := range rows {
 		f, b := matchTarget(r.loc, r.base, r.state)
